@@ -588,7 +588,7 @@ func runC10(r *Rng, n int, replay string) {
 		}
 		for _, f := range append(hc, hr...) {
 			if f != nil {
-				_ = f.Close()
+				closeIf(f)
 			}
 		}
 		emit(c)
@@ -627,7 +627,7 @@ func runC10(r *Rng, n int, replay string) {
 					got, _ := readAllOf(f)
 					resC = append(resC, "(Served "+cBytes(got)+")")
 				}
-				_ = f.Close()
+				closeIf(f)
 			}
 			var opensC []string
 			for nm := range opened {
@@ -652,6 +652,9 @@ func trunc(s string) string {
 // ---- C11: faults during the fill, and concurrent first opens ----
 
 func readAllOf(f hackpadfs.File) ([]byte, error) {
+	if f == nil {
+		return nil, errors.New("Open returned a nil handle together with a nil error")
+	}
 	var buf bytes.Buffer
 	_, err := io.Copy(&buf, f)
 	return buf.Bytes(), err
@@ -680,7 +683,7 @@ func runC11(r *Rng, n int, replay string) {
 		st0, store0 := newStore(minimal)
 		c0, _ := cache.NewReadOnlyFS(s0, store0, cache.ReadOnlyOptions{})
 		if f, err := c0.Open(name); err == nil {
-			_ = f.Close()
+			closeIf(f)
 		}
 		nreads := int(s0.count(s0.reads, name))
 		ncalls := int(st0.calls)
@@ -717,9 +720,12 @@ func runC11(r *Rng, n int, replay string) {
 			c.Cells = []string{fmt.Sprintf("fault/%s/size%d/min=%v", ft.kind, size, minimal)}
 			var c11Results []string
 			f, err := cfs.Open(name)
+			if err == nil && f == nil {
+				c.fail(hdr+": the open returned a nil handle and a nil error (the failed fill is not reported)", "fault:"+ft.kind+":nil-nil")
+			}
 			if err == nil {
 				got, rerr := readAllOf(f)
-				_ = f.Close()
+				closeIf(f)
 				c11Results = append(c11Results, "(Served "+cBytes(got)+")")
 				if rerr != nil || !bytes.Equal(got, data) {
 					c.fail(hdr+fmt.Sprintf(": the open succeeded but served %d bytes (err %v) instead of the %d source bytes", len(got), rerr, len(data)), "fault:"+ft.kind+":first-open-partial")
@@ -745,7 +751,7 @@ func runC11(r *Rng, n int, replay string) {
 					continue
 				}
 				got, rerr := readAllOf(f)
-				_ = f.Close()
+				closeIf(f)
 				c11Results = append(c11Results, "(Served "+cBytes(got)+")")
 				c.Text = append(c.Text, fmt.Sprintf("re-open %d: %d bytes", k, len(got)))
 				if rerr != nil || !bytes.Equal(got, data) {
@@ -777,7 +783,7 @@ func runC11(r *Rng, n int, replay string) {
 				var res2 []string
 				if f, e := cfs2.Open(name); e == nil {
 					got, _ := readAllOf(f)
-					_ = f.Close()
+					closeIf(f)
 					res2 = append(res2, "(Served "+cBytes(got)+")")
 				} else {
 					res2 = append(res2, "OErr")
@@ -788,7 +794,7 @@ func runC11(r *Rng, n int, replay string) {
 				src2.mu.Unlock()
 				if f, e := cfs2.Open(name); e == nil {
 					got, rerr := readAllOf(f)
-					_ = f.Close()
+					closeIf(f)
 					res2 = append(res2, "(Served "+cBytes(got)+")")
 					c2.Text = append(c2.Text, fmt.Sprintf("re-open with the source down: %d bytes", len(got)))
 					if rerr != nil || !bytes.Equal(got, data) {
@@ -809,7 +815,7 @@ func runC11(r *Rng, n int, replay string) {
 						continue
 					}
 					got, rerr := readAllOf(f)
-					_ = f.Close()
+					closeIf(f)
 					res2 = append(res2, "(Served "+cBytes(got)+")")
 					c2.Text = append(c2.Text, fmt.Sprintf("re-open %d: %d bytes", k, len(got)))
 					if rerr != nil || !bytes.Equal(got, data) {
@@ -864,7 +870,7 @@ func runC11(r *Rng, n int, replay string) {
 						return
 					}
 					got, rerr := readAllOf(f)
-					_ = f.Close()
+					closeIf(f)
 					if rerr != nil || !bytes.Equal(got, data) {
 						results[g] = fmt.Sprintf("partial: %d of %d bytes (err %v)", len(got), len(data), rerr)
 						return
@@ -921,7 +927,7 @@ func runC11(r *Rng, n int, replay string) {
 			c.Text = []string{hdr}
 			if f, err := cfs.Open(name); err == nil {
 				_, _ = readAllOf(f)
-				_ = f.Close()
+				closeIf(f)
 			}
 			st.mu.Lock()
 			st.openFailOnce = true
@@ -938,7 +944,7 @@ func runC11(r *Rng, n int, replay string) {
 					c.fail(hdr+": Open returned a nil handle and a nil error", "store-open-fails:nil-nil")
 				case err == nil:
 					got, rerr := readAllOf(f)
-					_ = f.Close()
+					closeIf(f)
 					if rerr != nil || !bytes.Equal(got, data) {
 						c.fail(fmt.Sprintf("%s: the open succeeded with %d of %d bytes", hdr, len(got), len(data)), "store-open-fails:partial")
 					}
@@ -992,7 +998,7 @@ func runC11(r *Rng, n int, replay string) {
 					return "err"
 				}
 				got, rerr := readAllOf(f)
-				_ = f.Close()
+				closeIf(f)
 				if rerr != nil || !bytes.Equal(got, data) {
 					return fmt.Sprintf("partial: %d of %d bytes (err %v)", len(got), len(data), rerr)
 				}
